@@ -46,6 +46,11 @@ type ColumnStoreImpl struct {
 	flushManager        map[string]mutable.FlushManager // mst -> flush detached or attached
 	accumulateMetaIndex *sync.Map                       //mst -> immutable.AccumulateMetaIndex, record metaIndex for detached store
 	strategy            shardMoveStrategy               // config to determine which strategy
+
+	// flushes of this shard that run and will signal the raft snapshot (several snapshot tables can be
+	// in flight): the committed index stays frozen until the last of them has its table in the data files
+	raftFlushMu  sync.Mutex
+	raftFlushing int
 }
 
 func newColumnStoreImpl(db, rp string, snapshotTblNum int) *ColumnStoreImpl {
@@ -62,9 +67,9 @@ func newColumnStoreImpl(db, rp string, snapshotTblNum int) *ColumnStoreImpl {
 }
 
 func (storage *ColumnStoreImpl) writeSnapshot(s *shard) {
-	if s.SnapShotter != nil {
-		atomic.StoreUint32(&s.SnapShotter.RaftFlag, 0)
-	}
+	// The shard learns the partition's SnapShotter with its first replicated write, possibly while
+	// this flush runs: freeze and signal through the same one, or not at all.
+	snapShotter := s.SnapShotter
 	s.snapshotLock.Lock()
 	if s.activeTbl == nil {
 		s.snapshotLock.Unlock()
@@ -81,6 +86,12 @@ func (storage *ColumnStoreImpl) writeSnapshot(s *shard) {
 		s.snapshotLock.Unlock()
 		panic("error: there is not free snapShotTbl")
 	}
+	if snapShotter != nil {
+		storage.raftFlushMu.Lock()
+		storage.raftFlushing++
+		atomic.StoreUint32(&snapShotter.RaftFlag, 0)
+		storage.raftFlushMu.Unlock()
+	}
 	//set flushManager and accumulateMetaIndex
 	s.activeTbl.MTable.SetFlushManagerInfo(storage.flushManager, storage.accumulateMetaIndex)
 	storage.snapshotContainer[idx] = s.activeTbl
@@ -94,10 +105,6 @@ func (storage *ColumnStoreImpl) writeSnapshot(s *shard) {
 	s.snapshotLock.Unlock()
 	// update last snapshot time
 	atomic.StoreUint64(&storage.lastSnapShotTime, fasttime.UnixTimestamp())
-	if s.SnapShotter != nil {
-		s.SnapShotter.RaftFlushC <- true
-		atomic.StoreUint32(&s.SnapShotter.RaftFlag, 1)
-	}
 
 	start := time.Now()
 	s.indexBuilder.Flush()
@@ -106,6 +113,20 @@ func (storage *ColumnStoreImpl) writeSnapshot(s *shard) {
 	go func() {
 		defer storage.wg.Done()
 		storage.flush(s, idx, curSize, walFiles, start)
+		// Rows applied from the raft log are not in the shard's WAL: until the table is in the data
+		// files the raft log is their only durable copy, and a restart replays it from the raft
+		// snapshot index. The snapshot may therefore be taken only now, and only when no other table
+		// of this shard is still being flushed; the committed index has been frozen (RaftFlag 0)
+		// since before the first of the running flushes switched its table.
+		if snapShotter != nil {
+			storage.raftFlushMu.Lock()
+			storage.raftFlushing--
+			if storage.raftFlushing == 0 {
+				snapShotter.RaftFlushC <- true
+				atomic.StoreUint32(&snapShotter.RaftFlag, 1)
+			}
+			storage.raftFlushMu.Unlock()
+		}
 	}()
 }
 
